@@ -239,6 +239,8 @@ def _alt_ok(items, d, s, volatile=False):
         return False
     if volatile and s == d:
         return False      # an item that becomes empty would put the separator next to the delimiter
+    if s == ' ' and any('{' in it for it in items):
+        return False      # a replacement field with a width is padded with spaces when it is formatted
     if ';' in (d, s) and any(c in it for it in items for c in '&<>"\''):
         return False      # in HTML mode these characters are written as entities, which end with ';'
     content = s.join(items)
@@ -1534,7 +1536,10 @@ class Builder:
         svals = []
         if m.snames and not int_context:
             allopt = all(d is not None for d in m.sdefaults)
-            supplied = None if sargs is None else [re.sub(r'[^A-Za-z0-9]', '', self.lit(s, cx)) for s in sargs][:len(m.snames)]
+            # (at the top level also words that look like the macro's own integer placeholders: an argument is text)
+            dollar = ('$m', '$p', '$x', '$$')
+            supplied = None if sargs is None else [(s if (s in dollar and cx.depth == 0) else re.sub(r'[^A-Za-z0-9]', '', self.lit(s, cx)))
+                                                   for s in sargs][:len(m.snames)]
             sreq = sum(1 for d in m.sdefaults if d is None)
             if supplied is not None:
                 while len(supplied) < sreq:
